@@ -349,3 +349,6 @@ def check(ctx):
     r1_merge_chain(ctx)
     r2_errors(ctx)
     r3_macro_one_name_per_variant(ctx)
+
+
+CLAUSE += '; the configuration key the macro forwards is the key the user wrote'
